@@ -208,7 +208,10 @@ def outcome0 (sync : Bool) (h : H) : List String :=
         else s!"R {q.rid} none cb={cb}"
   | _ => qs.map fun _ => "bad-op"
 
-/-- every server run behind the lines must have passed the checks of `c10_run_checked` -/
+/-- every server run behind the lines must have passed decidable end checks: the hypotheses of `c10_run_checked`
+    (`serve?`) for the ordinary histories; for the forced ones (`cut=`, `short=`, `xclose=`) those of
+    `c10_run_cut_checked` / quiescence only (`serveForced?`) — there the printed prefix rests on the safety theorems,
+    no theorem fixes which response breaks off -/
 def allChecked (sync : Bool) (h : H) : Bool :=
   let qs := h.qs.toList
   match h.kind with
